@@ -131,7 +131,10 @@ func drawCfg(t *rapid.T) (*cfg, suite) {
 		maxN = 4 // pure-Go BLS12-381 scalar multiplications cost milliseconds; a Verify does rows x D of them
 	}
 	for {
-		c.pol = policy.Draw(t, policy.Opts{MaxN: maxN})
+		// families weighted towards the structures with several rows per holder and zero coefficients
+		fam := rapid.SampledFrom([]string{policy.CNF, policy.CNF, policy.CNF, policy.Gate, policy.Gate, policy.Gate,
+			policy.Hier, policy.Hier, policy.Threshold, policy.Threshold, policy.Unanimity}).Draw(t, "familyWeighted")
+		c.pol = policy.Draw(t, policy.Opts{MaxN: maxN, Families: []string{fam}})
 		if everyHolderHasRows(c.pol) {
 			break
 		}
